@@ -345,6 +345,52 @@ pub fn run(r: &mut Runner) {
         });
     }
     {
+        // products and quotients landing around the underflow / overflow thresholds: operand exponent pairs with
+        // e_a + e_b (resp. e_a - e_b) in -1085..-995 and 1010..1030, every value in between
+        let mut u = crate::props::c03::plan(true).ub;
+        u.retain(|w| w[0] > 0.0);
+        let mut thin: Vec<[f64; 2]> = u.iter().step_by(if quick { 23 } else { 7 }).cloned().collect();
+        for m in [1.0, 1.0 + 2f64.powi(-52), 1.375, 1.9999999999999998, 1.5] {
+            thin.push([m, 0.0]);
+            thin.push([-m, 0.0]);
+        }
+        dedup(&mut thin);
+        let eas: Vec<i32> = vec![-1000, -999, -800, -511, -100, -20, 0, 37, 300, 700, 1000];
+        let mut targets: Vec<i32> = (-1085..=-995).collect();
+        targets.extend(1010..=1030);
+        let ops: Vec<Op> = vec![Op::mul, Op::mul_assign, Op::mul_f, Op::mul_assign_f, Op::f_mul, Op::div, Op::div_assign, Op::div_f, Op::div_assign_f, Op::f_div, Op::rem, Op::rem_f, Op::f_rem, Op::new_mul, Op::new_div, Op::hypot, Op::div_euclid, Op::rem_euclid];
+        let nt = targets.len();
+        r.notes.push(format!("threshold phase: {} operands per side x {} exponents of a x {} target exponents (sum for products, difference for quotients) x {} entry points", thin.len(), eas.len(), nt, ops.len()));
+        r.par("depth 1: products / quotients around the under/overflow thresholds", eas.len() * nt, (eas.len() * nt * thin.len() * thin.len() * 2) as u64, |c, l| {
+            let ea = eas[c / nt];
+            let t = targets[c % nt];
+            let mut i = 0u64;
+            for (kind, eb) in [(0, t - ea), (1, ea - t)] {
+                if !(-1000..=1000).contains(&eb) {
+                    continue;
+                }
+                let av: Vec<[f64; 2]> = thin.iter().filter_map(|&w| tfref::alpha::dd_scale(w, ea)).collect();
+                let bv: Vec<[f64; 2]> = thin.iter().filter_map(|&w| tfref::alpha::dd_scale(w, eb)).collect();
+                for a in &av {
+                    for b in &bv {
+                        for &op in &ops {
+                            let is_div = matches!(op, Op::div | Op::div_assign | Op::div_f | Op::div_assign_f | Op::f_div | Op::rem | Op::rem_f | Op::f_rem | Op::new_div | Op::div_euclid | Op::rem_euclid);
+                            if (kind == 1) != is_div {
+                                continue;
+                            }
+                            let (v, res) = judge(op, *a, *b);
+                            if res.k == 9 {
+                                l.count("panicked (no value)", 1);
+                            }
+                            rec.record(l, (1u64 << 53) + ((c as u64) << 24) + i, v);
+                            i += 1;
+                        }
+                    }
+                }
+            }
+        });
+    }
+    {
         // integer sources
         let ints: Vec<u128> = {
             let mut v: Vec<u128> = tfref::alpha::run_bounded_128(if quick { 3 } else { 4 });
